@@ -209,6 +209,33 @@ def check(prop, tier, seed):
             errors.append({"task": "known-finding " + e["id"], "error": {"type": "crash", "msg": nat.get("desc")}})
     lines.extend(known_lines)
 
+    # --- undecided obligations: a native small-scope search of the same contract may still
+    #     exhibit a failing input of the real function (then it is a violation with replay)
+    searched = {}
+    still_unknown = []
+    for out, r in unknown:
+        key = (out["module"], out["name"])
+        if key not in searched:
+            searched[key] = native({"module": out["module"], "name": out["name"], "mode": "search",
+                                    "budget": 5000 if tier == "quick" else 100000})
+        nat = searched[key]
+        if nat.get("status") == "fails":
+            violations += 1
+            rp = os.path.join(VERIF, "replays", prop, _safe(r["oid"]) + ".json")
+            doc = {"property": prop, "obligation": r["oid"], "kind": r["kind"], "where": r.get("where"), "note": r.get("note"),
+                   "task": {"module": out["module"], "name": out["name"]}, "solver": r.get("solver"),
+                   "solver_output": "undischarged (" + str(r.get("detail")) + "); failing input found by the contract's native small-scope search",
+                   "counter_model": nat.get("model"), "native_replay": nat, "reproduced_on_real_code": True, "repo": REPO, "tier": tier}
+            with open(rp, "w") as fh:
+                json.dump(doc, fh, indent=1, default=str)
+            lines.append(f"VIOLATION property={prop} replay={rp}")
+            lines.append(f"  obligation {r['oid']} ({r['kind']}) could not be discharged ({r.get('solver')}); the contract fails natively:")
+            lines.append(f"  native search: {str(nat.get('desc'))[:300]}")
+            exit_code = 1
+        else:
+            still_unknown.append((out, r))
+    unknown = still_unknown
+
     # --- undecided / errors ---------------------------------------------------------
     for out, r in unknown:
         ss = (out.get("info", {}).get("small_scope") or {}).get("status_of_open", {}).get(r["oid"])
